@@ -263,6 +263,7 @@ def check_from_algmod(prog, rep, c):
                         rep.violate("R3-coupling", construct, "linkage term %s receives (%s), not (recombination probabilities, nself, ...)" % (v.func.id, ", ".join(a)), where(f, v),
                                     "r, nself", ", ".join(a))
                         bad = True
+        bad = _check_derived_linkage(prog, rep, f, defs, construct) or bad
         if mg and len(rnames) == 1:
             R = sorted(rnames)[0]
             rdef = defs.get(R, [])
@@ -303,9 +304,9 @@ def check_from_algmod(prog, rep, c):
     good = True
     subs = [n for n in walk_no_nested(f.node) if isinstance(n, ast.Subscript) and isinstance(n.value, ast.Name) and n.value.id == out.id]
     for s in subs:
-        k = len(s.slice.elts) if isinstance(s.slice, ast.Tuple) else 1
+        k = getattr(s, "_nsub_written", len(s.slice.elts) if isinstance(s.slice, ast.Tuple) else 1)
         if k > rank:
-            rep.violate("R4-storage", construct, "the result is allocated with %d axes %s but indexed with %d subscripts (%s): raises on first use" % (rank, dump(al.args[0]), k, dump(s)[:50]),
+            rep.violate("R4-storage", construct, "the result is allocated with %d axes %s but indexed with %d subscripts (%s): raises on first use" % (rank, dump(al.args[0]), k, getattr(s, "_written", dump(s))[:50]),
                         where(f, s), "at most %d subscripts" % rank, str(k))
             good = False
             break
@@ -330,6 +331,67 @@ def _in_check(f, node):
         if isinstance(n, ast.Call) and isinstance(n.func, ast.Name) and n.func.id.startswith("check_") and node in list(ast.walk(n)):
             return True
     return False
+
+
+def _check_derived_linkage(prog, rep, f, defs, construct):
+    """A local computed by plain arithmetic from linkage terms (results of cov_D*(r, nself)) that coincides with one of the closed forms of
+    pybrops.model.vmat.util without selfing (nself == 0) but not with selfing generations is a linkage term taken by a shortcut that only holds for
+    nself = 0 (e.g. D1*D1 for cov_D2s).  The closed forms are read from the util functions on every run."""
+    try:
+        util = prog.module("pybrops.model.vmat.util")
+    except Exception:
+        return False
+    link = {}
+    for k, vs in defs.items():
+        if len(vs) == 1 and isinstance(vs[0], ast.Call) and isinstance(vs[0].func, ast.Name) and vs[0].func.id.startswith("cov_D") and len(vs[0].args) == 2 \
+                and all(isinstance(a, ast.Name) for a in vs[0].args):
+            g = prog.resolve_name(f.module, vs[0].func.id)
+            if hasattr(g, "node") and len(g.params()) == 2:
+                link[k] = (g, [a.id for a in vs[0].args])
+    derived = {}
+    for k, vs in defs.items():
+        if k in link or len(vs) != 1 or isinstance(vs[0], (ast.Name, ast.Constant)):
+            continue
+        names = {n.id for n in ast.walk(vs[0]) if isinstance(n, ast.Name)}
+        if names and names <= set(link) and not any(isinstance(n, (ast.Call, ast.Subscript, ast.Attribute)) for n in ast.walk(vs[0])):
+            derived[k] = vs[0]
+    if not derived:
+        return False
+    args = {tuple(a) for _, a in link.values()}
+    if len(args) != 1:
+        return False
+    rname, kname = next(iter(args))
+    cands = [g for g in util.functions.values() if g.name.startswith("cov_D") and len(g.params()) == 2]
+    forms = {}
+    try:
+        for g in cands:
+            pr, pk = g.params()
+            pv = path_values(prog, g, env={pr: Poly.atom(("var", rname)), pk: Poly.atom(("var", kname))})
+            v0 = [v for c, v in pv if c and c[0] == ("%s == 0" % pk, True) and v is not RAISES and v is not None]
+            v1 = [v for c, v in pv if c and c[0] == ("%s == 0" % pk, False) and ("%s > 0" % pk, True) in c and v is not RAISES and v is not None]
+            if len(v0) == 1 and len(v1) == 1:
+                forms[g.name] = (v0[0], v1[0])
+    except VNUnknown:
+        return False
+    bad = False
+    for k, e in sorted(derived.items()):
+        if not all(link[n][0].name in forms for n in {x.id for x in ast.walk(e) if isinstance(x, ast.Name)}):
+            continue
+        try:
+            p0 = VN(prog, f, {n: forms[link[n][0].name][0] for n in link if link[n][0].name in forms}).expr(e)
+            p1 = VN(prog, f, {n: forms[link[n][0].name][1] for n in link if link[n][0].name in forms}).expr(e)
+        except VNUnknown:
+            continue
+        both = [h for h, (a0, a1) in forms.items() if p0 == a0 and p1 == a1]
+        only0 = [h for h, (a0, a1) in forms.items() if p0 == a0 and p1 != a1]
+        if both or not only0:
+            continue
+        node = e
+        rep.violate("R3-coupling", construct, "%s = %s equals %s(%s, %s) only without selfing (nself = 0): with intermediate selfing generations the closed form is %s, "
+                    "not %s" % (k, dump(e), only0[0], rname, kname, forms[only0[0]][1].show()[:70], p1.show()[:70]), where(f, node),
+                    "%s(%s, %s)" % (only0[0], rname, kname), dump(e))
+        bad = True
+    return bad
 
 
 def run(prog, rep, tier):
